@@ -11,21 +11,20 @@ from vc.cvc import api as A
 
 
 def spec_float_range(v, low, high, mask):
-    """v: FP term; low/high: Obj (None or float objects); mask: Int in 0..3"""
-    exl, exh = (mask % 2) == 1, mask >= 2
+    """v: FP term; low/high: Obj (None or float objects); mask: any Int, bit 0 = exclude low, bit 1 = exclude high"""
+    exl, exh = (mask % 2) == 1, ((mask / 2) % 2) == 1
     lo_ok = z3.Or(low == A.NONE, z3.If(exl, z3.fpLT(A.float_val(low), v), z3.fpLEQ(A.float_val(low), v)))
     hi_ok = z3.Or(high == A.NONE, z3.If(exh, z3.fpGT(A.float_val(high), v), z3.fpGEQ(A.float_val(high), v)))
     return z3.And(lo_ok, hi_ok)
 
 
 def wf_float_range_info(info):
-    """well-formedness of a float-range descriptor as built by BaseRange.__init__: (kind, low, high, exclude_mask) with
-    low/high None or exact floats and exclude_mask an int in 0..3"""
+    """well-formedness of a float-range descriptor, exactly what _trait_set_validate checks before installing the
+    validator: (kind, low, high, exclude_mask) with low/high None or float instances and exclude_mask an int"""
     low, high, m = A.tuple_item(info, 1), A.tuple_item(info, 2), A.tuple_item(info, 3)
     return z3.And(A.is_inst(info, "PyTuple_Type"), A.tuple_len(info) == 4,
-                  z3.Or(low == A.NONE, A.is_exact(low, "PyFloat_Type")), z3.Or(high == A.NONE, A.is_exact(high, "PyFloat_Type")),
-                  z3.Implies(low != A.NONE, A.is_inst(low, "PyFloat_Type")), z3.Implies(high != A.NONE, A.is_inst(high, "PyFloat_Type")),
-                  A.is_exact(m, "PyLong_Type"), A.is_inst(m, "PyLong_Type"), A.long_fits(m), 0 <= A.long_val(m), A.long_val(m) <= 3)
+                  z3.Or(low == A.NONE, A.is_inst(low, "PyFloat_Type")), z3.Or(high == A.NONE, A.is_inst(high, "PyFloat_Type")),
+                  A.is_inst(m, "PyLong_Type"))
 
 
 def fp_witness(v):
@@ -69,8 +68,10 @@ class InFloatRange(CContract):
     def c_post(self, cx, ex, ov, info, ret, st):
         value, rinfo = info["value"], info["rinfo"]
         spec = spec_float_range(A.float_val(value), A.tuple_item(rinfo, 1), A.tuple_item(rinfo, 2), A.long_val(A.tuple_item(rinfo, 3)))
-        return [("post:spec_float_range", z3.And(z3.Or(ret == 0, ret == 1), (ret == 1) == spec)),
-                ("post:no-error-set", st.exc == 0)]
+        fits = A.long_fits(A.tuple_item(rinfo, 3))
+        return [("post:spec_float_range", z3.Implies(fits, z3.And(z3.Or(ret == 0, ret == 1), (ret == 1) == spec))),
+                ("post:no-error-set", z3.Implies(fits, st.exc == 0)),
+                ("post:oversized-mask-is-OverflowError", z3.Implies(z3.Not(fits), z3.And(ret == -1, st.exc == EXC["OverflowError"])))]
 
     def covers(self, cx, ov, info):
         return [("accepts", lambda r, s: r == 1), ("rejects", lambda r, s: r == 0)]
@@ -96,7 +97,9 @@ def in_float_range_summary(ex, args, st, k):
                        "pre@in_float_range:exact-float-and-well-formed-descriptor")
     r = ex.cx.fresh("in_range", INT)
     spec = spec_float_range(A.float_val(value), A.tuple_item(rinfo, 1), A.tuple_item(rinfo, 2), A.long_val(A.tuple_item(rinfo, 3)))
-    return k(r, st.assume(z3.Or(r == 0, r == 1), (r == 1) == spec))
+    fits = A.long_fits(A.tuple_item(rinfo, 3))
+    return ex.cx.branch(st, fits, lambda s: k(r, s.assume(z3.Or(r == 0, r == 1), (r == 1) == spec)),
+                        lambda s: k(z3.IntVal(-1), s.with_exc(EXC["OverflowError"])))
 
 
 def own_neutral(st, info, ret):
@@ -283,11 +286,13 @@ class ValidateTraitFloatRange(FastValidator):
         tinfo, value = info["tinfo"], info["value"]
         inr = lambda v: spec_float_range(v, A.tuple_item(tinfo, 1), A.tuple_item(tinfo, 2), A.long_val(A.tuple_item(tinfo, 3)))
         exact = A.is_exact(value, "PyFloat_Type")
+        fits = A.long_fits(A.tuple_item(tinfo, 3))
         out = [("post:result-has-exact-type-float", z3.Implies(ret != NULL, A.is_exact(ret, "PyFloat_Type"))),
                ("post:result-lies-in-the-declared-range", z3.Implies(ret != NULL, inr(A.float_val(ret))), fp_witness(A.float_val(ret))),
-               ("post:exact-float-accepted-iff-in-range", z3.Implies(exact, (ret != NULL) == inr(A.float_val(value))), fp_witness(A.float_val(value))),
+               ("post:exact-float-accepted-iff-in-range", z3.Implies(z3.And(exact, fits), (ret != NULL) == inr(A.float_val(value))), fp_witness(A.float_val(value))),
                ("post:exact-float-stored-as-is", z3.Implies(z3.And(exact, ret != NULL), ret == value)),
-               ("post:out-of-range-is-TraitError", z3.Implies(z3.And(exact, ret == NULL), st.exc == EXC["TraitError"])),
+               ("post:out-of-range-is-TraitError", z3.Implies(z3.And(exact, fits, ret == NULL), st.exc == EXC["TraitError"])),
+               ("post:unusable-exclusion-mask-is-reported-not-guessed", z3.Implies(z3.And(exact, z3.Not(fits)), z3.And(ret == NULL, st.exc == EXC["OverflowError"]))),
                ("post:TypeError-of-the-conversion-becomes-TraitError", z3.Implies(ret == NULL, st.exc != EXC["TypeError"]))]
         return out
 
@@ -504,13 +509,20 @@ class ValidateTraitAdapt(FastValidator):
 
     def wf(self, tinfo, trait, obj, value):
         m = A.tuple_item(tinfo, z3.IntVal(2))
-        return z3.And(A.tuple_len(tinfo) == 4, A.is_inst(m, "PyLong_Type"), A.long_fits(m), ADAPT != NULL,
-                      A.tuple_item(tinfo, z3.IntVal(1)) != NULL, A.tuple_item(tinfo, z3.IntVal(3)) != NULL)
+        return z3.And(A.tuple_len(tinfo) == 4, A.is_inst(m, "PyLong_Type"))
+
+    def c_setup(self, cx, ex, ov):
+        st, args, info = FastValidator.c_setup(self, cx, ex, ov)
+        tinfo = info["tinfo"]
+        # A-INIT: the adapt function is registered when traits is imported; A-TUPLE: items of a tuple are not NULL
+        st = st.assume(ADAPT != NULL, A.tuple_item(tinfo, z3.IntVal(1)) != NULL, A.tuple_item(tinfo, z3.IntVal(3)) != NULL)
+        return st, args, info
 
     def spec(self, info, ret, st):
         tinfo, value = info["tinfo"], info["value"]
         T = A.tuple_item(tinfo, z3.IntVal(1))
         mode = A.long_val(A.tuple_item(tinfo, z3.IntVal(2)))
+        fits = A.long_fits(A.tuple_item(tinfo, z3.IntVal(2)))
         allow = z3.Function("truth_result", Obj, INT)(A.tuple_item(tinfo, z3.IntVal(3)))
         isi = z3.Function("isinstance_result", Obj, Obj, INT)(value, T)
         calls = [r for r in st.trace if r[0] == "call"]
@@ -518,10 +530,11 @@ class ValidateTraitAdapt(FastValidator):
         res = st.ghost.get("last_call_result")
         out = [("post:None-accepted-iff-allow_none", z3.Implies(z3.And(value == A.NONE, allow >= 0), z3.And(
                     (ret != NULL) == (allow == 1), same_object(ret, value), z3.BoolVal(not calls and not defaults)))),
-               ("post:mode-0-is-a-plain-isinstance-check", z3.Implies(z3.And(value != A.NONE, mode == 0, isi >= 0), z3.And(
+               ("post:mode-0-is-a-plain-isinstance-check", z3.Implies(z3.And(value != A.NONE, mode == 0, fits, isi >= 0), z3.And(
                     (ret != NULL) == (isi == 1), same_object(ret, value), z3.BoolVal(not calls and not defaults)))),
                ("post:adaptation-is-tried-at-most-once", z3.BoolVal(len(calls) <= 1)),
-               ("post:default-only-in-mode-2", z3.Implies(z3.BoolVal(bool(defaults)), z3.And(mode != 0, mode != 1, value != A.NONE)))]
+               ("post:default-only-in-mode-2", z3.Implies(z3.BoolVal(bool(defaults)), z3.And(mode != 0, mode != 1, value != A.NONE))),
+               ("post:unreadable-mode-is-reported", z3.Implies(z3.And(value != A.NONE, z3.Not(fits)), z3.And(ret == NULL, st.exc == EXC["OverflowError"])))]
         if calls:
             c = calls[0]
             out.append(("post:adaptation-is-adapt(value, type, None)", z3.And(c[1] == ADAPT, call_args_are(c, value, T, A.NONE))))
